@@ -1,7 +1,309 @@
-//! Generators of the fault, crash, concurrency and tool profiles.
+//! Generators of the fault, crash, cancellation, stored-byte-fault, concurrency and liveness profiles.
 
+use crate::exec::{run_plan, RunOpts, RunOutcome};
+use crate::gen::*;
 use crate::plan::*;
+use crate::rng::Rng;
+use crate::world::{EIO, ENOSPC};
+
+const MIX_CRASH: Mix = Mix { write: 55, delete: 22, idle: 6, lifecycle: 5, lifecycle_bg: 0, force: 2, free: 0, offload: 0, fsync: 2, restart: 0, clock: 0 };
+const MIX_AFTER: Mix = Mix { write: 60, delete: 25, idle: 5, lifecycle: 0, lifecycle_bg: 0, force: 0, free: 0, offload: 0, fsync: 0, restart: 0, clock: 0 };
+
+pub const KEEP_LEN_MINUS_1: u32 = u32::MAX - 1;
+pub const KEEP_HALF: u32 = u32::MAX - 2;
+
+fn kill_keeps(key_len: u16) -> Vec<u32> {
+    let hl = 57 + key_len as u32;
+    vec![0, 1, hl, hl + 8, KEEP_LEN_MINUS_1, u32::MAX]
+}
+
+fn power_cut(rng: &mut Rng) -> PowerCut {
+    PowerCut { keep_permille: rng.below(1001) as u32, keep_bytes: if rng.chance(1, 3) { Some(rng.range(0, 300)) } else { None }, torn: *rng.pick(&[0u8, 0, 0, 1, 2]), others_keep_all: rng.chance(1, 2) }
+}
+
+/// number of mutating I/O events of session 0 when nothing fails
+fn mutating_events(plan: &Plan) -> u64 {
+    let mut base = plan.clone();
+    base.sessions.truncate(1);
+    base.sessions[0].end = SessionEnd::Close;
+    base.faults.clear();
+    let out = run_plan(&base, &RunOpts::default());
+    out.mut_events_per_session.first().copied().unwrap_or(0)
+}
+
+/// Histories with one crash per run: kill (partial write) or power loss, recovery, writes after
+/// recovery, further restarts (C06; monitors C07).
+pub fn gen_crash(property: &str, profile: &str, seed: u64) -> Plan {
+    let (mut plan, mut sw) = base_plan(property, profile, seed);
+    plan.store.max_data_in_blob = *sw.rng.pick(&[1u64, 2, 3, 3, 4, 6, 16]);
+    if sw.rng.chance(1, 2) {
+        plan.store.deferred_min_ms = 100;
+        plan.store.deferred_max_ms = 300;
+    }
+    plan.store.ignore_corrupted = sw.rng.chance(1, 6);
+    sw.big_values = sw.rng.chance(1, 5);
+    let n0 = sw.rng.range(3, 28) as usize;
+    let mut ops0 = Vec::new();
+    for _ in 0..n0 {
+        ops0.push(gen_op(&mut sw, &MIX_CRASH, plan.store.key_len));
+    }
+    let power = profile.contains("power") || (!profile.contains("kill") && sw.rng.chance(1, 2));
+    let mut s0 = SessionPlan::sequential(ops0);
+    s0.lazy_init = sw.rng.chance(1, 6);
+    s0.end = if power { SessionEnd::PowerLoss(power_cut(&mut sw.rng)) } else { SessionEnd::Killed };
+    let mut ops1 = Vec::new();
+    for _ in 0..sw.rng.range(2, 8) {
+        ops1.push(gen_op(&mut sw, &MIX_AFTER, plan.store.key_len));
+    }
+    let mut s1 = SessionPlan::sequential(ops1);
+    if sw.rng.chance(1, 3) {
+        s1.validate_data = Some(!plan.store.validate_data);
+    }
+    let mut ops2 = Vec::new();
+    for _ in 0..sw.rng.range(1, 5) {
+        ops2.push(gen_op(&mut sw, &MIX_AFTER, plan.store.key_len));
+    }
+    // one more clean restart inside the last session
+    let uid = sw.uid();
+    ops2.push(Op { uid, think_ms: 0, kind: OpKind::Restart { lazy: sw.rng.chance(1, 2), damage: if sw.rng.chance(1, 2) { vec![AtRest::IndexRemove { blob: sw.rng.below(6) as usize }] } else { vec![] } } });
+    let mut s2 = SessionPlan::sequential(ops2);
+    if sw.rng.chance(1, 3) {
+        s2.validate_data = Some(sw.rng.chance(1, 2));
+    }
+    plan.sessions = vec![s0, s1, s2];
+    if !profile.contains("sweep") {
+        let m = mutating_events(&plan).max(1);
+        let e = sw.rng.below(m);
+        let keep = *sw.rng.pick(&kill_keeps(plan.store.key_len));
+        plan.faults = vec![FaultSpec { session: 0, sel: Sel::Global { n: e }, action: FaultAction::Kill { keep } }];
+    }
+    plan
+}
+
+/// Histories with injected I/O failures (C11).
+pub fn gen_iofault(property: &str, profile: &str, seed: u64) -> Plan {
+    let (mut plan, mut sw) = base_plan(property, profile, seed);
+    plan.store.max_data_in_blob = *sw.rng.pick(&[2u64, 3, 3, 4, 6]);
+    plan.store.deferred_min_ms = 100;
+    plan.store.deferred_max_ms = 300;
+    let mix = Mix { write: 50, delete: 20, idle: 8, lifecycle: 6, lifecycle_bg: 0, force: 2, free: 1, offload: 0, fsync: 3, restart: 0, clock: 0 };
+    let n0 = sw.rng.range(6, 26) as usize;
+    let mut ops = Vec::new();
+    for _ in 0..n0 {
+        ops.push(gen_op(&mut sw, &mix, plan.store.key_len));
+    }
+    // after the faults: let background work finish, probe rotation, restart, a few more operations
+    let uid = sw.uid();
+    ops.push(Op { uid, think_ms: 0, kind: OpKind::Idle { ms: 60_000 } });
+    let uid = sw.uid();
+    ops.push(Op { uid, think_ms: 0, kind: OpKind::OverflowProbe { max_writes: 40, gap_ms: 300 } });
+    let uid = sw.uid();
+    ops.push(Op { uid, think_ms: 0, kind: OpKind::Restart { lazy: sw.rng.chance(1, 2), damage: vec![] } });
+    for _ in 0..sw.rng.range(1, 4) {
+        ops.push(gen_op(&mut sw, &MIX_AFTER, plan.store.key_len));
+    }
+    plan.sessions = vec![SessionPlan::sequential(ops)];
+    if !profile.contains("sweep") {
+        let nf = sw.rng.range(1, 3);
+        for _ in 0..nf {
+            plan.faults.push(random_io_fault(&mut sw.rng));
+        }
+    }
+    plan
+}
+
+fn random_io_fault(rng: &mut Rng) -> FaultSpec {
+    let kind = *rng.pick(&[IoKind::Write, IoKind::Write, IoKind::Write, IoKind::Sync, IoKind::Sync, IoKind::Create, IoKind::Open]);
+    let class = *rng.pick(&[PathClass::Blob, PathClass::Blob, PathClass::Index]);
+    let errno = *rng.pick(&[ENOSPC, EIO]);
+    let n = match kind {
+        IoKind::Write => rng.below(30),
+        IoKind::Sync => rng.below(20),
+        _ => rng.below(8),
+    };
+    let action = if kind == IoKind::Write && rng.chance(1, 2) { FaultAction::Short { keep: *rng.pick(&[1u32, KEEP_HALF, KEEP_LEN_MINUS_1]), errno } } else { FaultAction::Fail { errno } };
+    FaultSpec { session: 0, sel: Sel::Nth { kind, class, n }, action }
+}
+
+/// Histories in which operation futures are dropped after k polls (C14).
+pub fn gen_cancel(property: &str, profile: &str, seed: u64) -> Plan {
+    let (mut plan, mut sw) = base_plan(property, profile, seed);
+    plan.store.max_data_in_blob = *sw.rng.pick(&[2u64, 3, 4, 6, 16]);
+    plan.store.deferred_min_ms = 100;
+    plan.store.deferred_max_ms = 300;
+    // every I/O is a suspension point in half of the runs (current-thread flavour)
+    sw.big_values = sw.rng.chance(1, 3);
+    let mix = Mix { write: 50, delete: 22, idle: 5, lifecycle: 8, lifecycle_bg: 0, force: 0, free: 2, offload: 0, fsync: 3, restart: 0, clock: 0 };
+    let n0 = sw.rng.range(5, 22) as usize;
+    let mut ops = Vec::new();
+    for i in 0..n0 {
+        let mut op = gen_op(&mut sw, &mix, plan.store.key_len);
+        if !profile.contains("sweep") && i >= 1 && sw.rng.chance(1, 4) && !matches!(op.kind, OpKind::Idle { .. }) {
+            let k = sw.rng.below(9) as u32;
+            op.kind = OpKind::Cancelled { k, op: Box::new(op.kind.clone()) };
+        }
+        ops.push(op);
+    }
+    let uid = sw.uid();
+    ops.push(Op { uid, think_ms: 0, kind: OpKind::Idle { ms: 2_000 } });
+    let uid = sw.uid();
+    ops.push(Op { uid, think_ms: 0, kind: OpKind::Restart { lazy: sw.rng.chance(1, 2), damage: if sw.rng.chance(1, 2) { vec![AtRest::IndexRemove { blob: sw.rng.below(6) as usize }] } else { vec![] } } });
+    for _ in 0..sw.rng.range(1, 4) {
+        ops.push(gen_op(&mut sw, &MIX_AFTER, plan.store.key_len));
+    }
+    plan.sessions = vec![SessionPlan::sequential(ops)];
+    plan
+}
+
+/// Value sizes across every threshold, then stored bytes altered at rest or under an open storage (C05).
+pub fn gen_bitflip(property: &str, profile: &str, seed: u64) -> Plan {
+    let (mut plan, mut sw) = base_plan(property, profile, seed);
+    plan.store.max_data_in_blob = *sw.rng.pick(&[2u64, 3, 4, 8, 64]);
+    plan.store.deferred_min_ms = 100;
+    plan.store.deferred_max_ms = 300;
+    plan.store.allow_duplicates = true;
+    sw.big_values = true;
+    let mix = Mix { write: 70, delete: 10, idle: 8, lifecycle: 4, lifecycle_bg: 0, force: 0, free: 0, offload: 0, fsync: 0, restart: 3, clock: 0 };
+    let n0 = sw.rng.range(3, 14) as usize;
+    let mut ops = Vec::new();
+    for _ in 0..n0 {
+        ops.push(gen_op(&mut sw, &mix, plan.store.key_len));
+    }
+    if !profile.contains("clean") {
+        let classes = [ByteClass::Data, ByteClass::Data, ByteClass::Data, ByteClass::Data, ByteClass::Meta, ByteClass::RecHeader, ByteClass::BlobHeader];
+        let flip = |rng: &mut Rng| AtRest::BitFlip { blob: rng.below(6) as usize, rec: rng.below(8) as usize, class: *rng.pick(&classes), off: rng.below(1 << 20) as u32, mask: burst(rng) };
+        if sw.rng.chance(1, 2) {
+            // under the open storage (index in memory, or on disk after the idle period)
+            if sw.rng.chance(1, 2) {
+                let uid = sw.uid();
+                ops.push(Op { uid, think_ms: 0, kind: OpKind::Idle { ms: 1_000 } });
+            }
+            let uid = sw.uid();
+            let f = flip(&mut sw.rng);
+            ops.push(Op { uid, think_ms: 0, kind: OpKind::Damage(f) });
+        } else {
+            let mut damage = vec![flip(&mut sw.rng)];
+            if sw.rng.chance(1, 2) {
+                damage.push(AtRest::IndexRemove { blob: sw.rng.below(6) as usize });
+            }
+            let uid = sw.uid();
+            ops.push(Op { uid, think_ms: 0, kind: OpKind::Restart { lazy: sw.rng.chance(1, 2), damage } });
+        }
+        for _ in 0..sw.rng.range(0, 3) {
+            ops.push(gen_op(&mut sw, &MIX_AFTER, plan.store.key_len));
+        }
+    }
+    plan.sessions = vec![SessionPlan::sequential(ops)];
+    plan
+}
+
+/// a burst of at most 32 bits: 1..=4 consecutive bytes with arbitrary bit patterns
+fn burst(rng: &mut Rng) -> u32 {
+    let m = match rng.below(4) {
+        0 => 1u32 << rng.below(8),
+        1 => (rng.next() as u32) & 0xFF,
+        2 => (rng.next() as u32) & 0xFFFF,
+        _ => rng.next() as u32,
+    };
+    if m == 0 {
+        1
+    } else {
+        m
+    }
+}
+
+// ------------------------------------------------------------------------------------------
+// sweeps: a fault-free base run counts the fault sites, then one run per site
+
+pub fn expand_sweep(base: &Plan, out: &RunOutcome, thorough: bool) -> Vec<Plan> {
+    let profile = base.profile.split('+').next().unwrap_or("");
+    let mut rng = Rng::new(base.seed ^ 0x5EED);
+    let mut plans = Vec::new();
+    if profile.starts_with("crash") {
+        let m = out.mut_events_per_session.first().copied().unwrap_or(0);
+        let keeps = kill_keeps(base.store.key_len);
+        let mut sites: Vec<(u64, u32)> = Vec::new();
+        for e in 0..m {
+            for k in keeps.iter() {
+                sites.push((e, *k));
+            }
+        }
+        let cap = if thorough { 4000 } else { 160 };
+        let sites = sample(sites, cap, &mut rng);
+        for (e, keep) in sites {
+            let mut p = base.clone();
+            p.faults = vec![FaultSpec { session: 0, sel: Sel::Global { n: e }, action: FaultAction::Kill { keep } }];
+            if let SessionEnd::PowerLoss(_) = p.sessions[0].end {
+                // every cut of the un-synced tail is its own run: vary the cut with the site
+                p.sessions[0].end = SessionEnd::PowerLoss(PowerCut { keep_permille: ((e * 131 + keep as u64 * 17) % 1001) as u32, keep_bytes: if e % 3 == 0 { Some((e * 7 + keep as u64) % 260) } else { None }, torn: ((e + keep as u64) % 5).min(2) as u8 % 3, others_keep_all: e % 2 == 0 });
+            }
+            plans.push(p);
+        }
+    } else if profile.starts_with("iofault") {
+        // every n-th operation of every kind on every path class, both errnos, short writes
+        let mut sites: Vec<FaultSpec> = Vec::new();
+        let m = out.mut_events_per_session.first().copied().unwrap_or(0);
+        for e in 0..m {
+            for errno in [ENOSPC, EIO] {
+                sites.push(FaultSpec { session: 0, sel: Sel::Global { n: e }, action: FaultAction::Fail { errno } });
+            }
+            for keep in [1u32, KEEP_HALF, KEEP_LEN_MINUS_1] {
+                sites.push(FaultSpec { session: 0, sel: Sel::Global { n: e }, action: FaultAction::Short { keep, errno: if e % 2 == 0 { ENOSPC } else { EIO } } });
+            }
+        }
+        let cap = if thorough { 4000 } else { 160 };
+        for f in sample(sites, cap, &mut rng) {
+            let mut p = base.clone();
+            p.faults = vec![f];
+            plans.push(p);
+        }
+    } else if profile.starts_with("cancel") {
+        // every operation x every poll count k < polls needed (bounded)
+        let ops = &base.sessions[0].clients[0];
+        let mut sites: Vec<(usize, u32)> = Vec::new();
+        for (i, op) in ops.iter().enumerate() {
+            if matches!(op.kind, OpKind::Idle { .. } | OpKind::Restart { .. } | OpKind::Offload { .. } | OpKind::ClockJump { .. } | OpKind::OverflowProbe { .. } | OpKind::Damage(_) | OpKind::Cancelled { .. } | OpKind::RestartSweep { .. }) {
+                continue;
+            }
+            for k in 0..14u32 {
+                sites.push((i, k));
+            }
+        }
+        let cap = if thorough { 4000 } else { 160 };
+        for (i, k) in sample(sites, cap, &mut rng) {
+            let mut p = base.clone();
+            let op = &mut p.sessions[0].clients[0][i];
+            op.kind = OpKind::Cancelled { k, op: Box::new(op.kind.clone()) };
+            plans.push(p);
+        }
+    }
+    plans
+}
+
+fn sample<T>(mut v: Vec<T>, cap: usize, rng: &mut Rng) -> Vec<T> {
+    if v.len() <= cap {
+        return v;
+    }
+    // partial Fisher-Yates
+    for i in 0..cap {
+        let j = i + rng.below((v.len() - i) as u64) as usize;
+        v.swap(i, j);
+    }
+    v.truncate(cap);
+    v
+}
 
 pub fn gen_plan2(property: &str, profile: &str, seed: u64) -> Plan {
-    panic!("unknown profile {} for {} seed {}", profile, property, seed)
+    let base = profile.split('+').next().unwrap_or(profile);
+    if base.starts_with("crash") {
+        gen_crash(property, profile, seed)
+    } else if base.starts_with("iofault") {
+        gen_iofault(property, profile, seed)
+    } else if base.starts_with("cancel") {
+        gen_cancel(property, profile, seed)
+    } else if base.starts_with("bitflip") {
+        gen_bitflip(property, profile, seed)
+    } else {
+        crate::gen3::gen_plan3(property, profile, seed)
+    }
 }
